@@ -73,6 +73,9 @@ type concCase struct {
 	// ReadTimeoutMs: the client's total read timeout (0: 2 s). It bounds the time a call may spend READING its reply; the time a call
 	// spends waiting for its turn behind other callers is not part of it.
 	ReadTimeoutMs int `json:"read_timeout_ms,omitempty"`
+	// Age: before the goroutines start, the client makes this many ordinary request calls one after the other (a client that has been
+	// in use for a long time: ticket and sequence counters have advanced, maybe wrapped)
+	Age int `json:"age,omitempty"`
 }
 
 // racyHooks is a ClientHooks implementation that is deliberately not safe for concurrent use.
@@ -163,6 +166,9 @@ func runConc(c concCase) harness.Result {
 	mon.Plan = func(n int, replyLen int) ([]int, []int) {
 		// called with the monitor lock held: read the last arrival directly
 		r := monRef.Arrivals[n-1]
+		if r.Addr == 60000 {
+			return nil, nil // the ageing calls (see Age): whole reply at once, no yields
+		}
 		cl := plans[r.Addr]
 		return planFor(c.Kind, cl.Plan, r.FC, replyLen)
 	}
@@ -278,6 +284,17 @@ func runConc(c concCase) harness.Result {
 					_ = connectFn()
 				}
 			}(cs)
+		}
+	}
+	if c.Age > 0 {
+		aq, err := cat.NewRequest(f, spec.Req{FC: 3, Unit: 250, Tx: 9, Addr: 60000, Qty: 1})
+		if err != nil {
+			return harness.Fail("harness: %v", err)
+		}
+		for i := 0; i < c.Age; i++ {
+			if _, err := do(context.Background(), aq); err != nil {
+				return harness.Fail("ordinary call #%d on a client used by one goroutine only failed: %v", i+1, err)
+			}
 		}
 	}
 	results := make([][]callResult, len(c.Workers))
@@ -739,3 +756,32 @@ var chkReal = harness.Define("shared-client-over-loopback-tcp",
 	}, runReal)
 
 func TestRealTCP(t *testing.T) { chkReal.Rapid(t, harness.Pick(25, 600)) }
+
+// TestAgedClientConcurrency: the concurrent scenario on clients that have already made 250..65540 calls (around the wraps of 8- and
+// 16-bit counters): several goroutines whose replies take 200 us each, so that calls queue behind one another.
+func TestAgedClientConcurrency(t *testing.T) {
+	idx := 0
+	ages := []int{250, 65530}
+	if harness.Thorough() {
+		ages = []int{250, 4090, 32760, 65530, 131066}
+	}
+	for _, kind := range []string{"tcp", "rtu-net"} {
+		for _, age := range ages {
+			idx++
+			if !harness.Mine(idx) {
+				continue
+			}
+			c := concCase{Kind: kind, Procs: 8, DevSeed: uint64(idx) + harness.Seed(), Age: age}
+			for w := 0; w < 6; w++ {
+				var calls []call
+				for m := 0; m < 6; m++ {
+					calls = append(calls, call{FC: 3, Plan: uint64(w*7 + m), DelayUs: 200})
+				}
+				c.Workers = append(c.Workers, calls)
+			}
+			if !chkConc.Eval(t, c) {
+				return
+			}
+		}
+	}
+}
